@@ -68,6 +68,11 @@ CLAIMED = {
    note="Trusted: Go type checker, go/ssa, frozen tables in checker/c14.go. Not covered: the tombstone arithmetic of TruncateUptoTx.",
    technique="lock-pairing dataflow, who-may-call, guard dominance and must-pass-through on the SSA CFG",
    ref="DESIGN.md §3 C14"),
+ "C16": dict(
+   text="Static decision, for a frozen list of decoders of untrusted or possibly corrupted bytes, that every slice expression, index, fixed-size big-endian read and length-driven allocation is within bounds on all paths: each obligation (a linear inequality over SSA values and slice lengths) is discharged from dominating branch conditions, inferred callee summaries, stated interface contracts (checked on every implementation) and an induction step over loop cursors; explicit panics reachable from the decoders are violations; header decoders accept only known versions.",
+   note="Trusted: Go type checker, go/ssa, the linear-arithmetic prover in checker/bounds.go (sound by construction: an obligation is accepted only if it is a non-negative combination of facts), the decoder list and the four stated preconditions/non-negativity assumptions in checker/c16.go. Not covered: termination/time bounds, overflow of cursor arithmetic, the generated SQL parser.",
+   technique="bounds-obligation generation on SSA + dominating-fact linear prover with interprocedural summaries",
+   ref="DESIGN.md §3 C16"),
  "C17": dict(
    text="Static decision of the structural clauses behind the byte-log behaviour of single-file and multi-file appendables: lock pairing, lockset with caller-holds helpers, flush-before-fsync/close/read-only switch, seek typestate (whoever moves the descriptor flags seekRequired), offset captured before write, rotation order and guard, SetOffset rewind discipline, discard guard.",
    note="Trusted: Go type checker, go/ssa, os.File semantics, tables in checker/c17.go. Not covered: refinement of the byte-array model over arbitrary operation sequences.",
